@@ -25,7 +25,9 @@ def cases(rng, tier):
     N = 120 if tier == "quick" else 1500
     for _ in range(N):
         r0 = rng.random()
-        if r0 < 0.25:
+        if r0 < 0.15:
+            p = cutfind.gen_mixed_cost(rng, tier)
+        elif r0 < 0.3:
             p = cutfind.gen_dense(rng, tier, exact=rng.random() < 0.5)
         elif r0 < 0.5:
             p = cutfind.gen_repeat(rng, tier)
